@@ -62,6 +62,7 @@ type PeerOpts struct {
 	// scripted server post-auth behaviour
 	PostAuthReturnCode string // default AUTHORIZED
 	PostAuthInClear    bool
+	PostAuthSecretAttr bool // one attribute of the post-auth ad travels in the private-attribute (secret marker) form
 	PostAuthUser       string
 	PostAuthSid        string
 	ValidCommands      string
@@ -496,7 +497,28 @@ func ScriptedServer(conn *BufConn, o PeerOpts, limit time.Duration) (log *PeerLo
 	if log.Key != nil && !o.PostAuthInClear {
 		_ = s.SetSymmetricKey(log.Key)
 	}
-	if err := sendAd(ctx, s, nil, pa); err != nil {
+	if o.PostAuthSecretAttr {
+		// written by hand: the ad's expressions, one of them as SECRET_MARKER + secret (which an honest
+		// cedar sender only does on a keyed-but-cleartext channel, but a receiver must take in its stride)
+		m := message.NewMessageForStream(s)
+		attrs := pa.GetAttributes()
+		if err := m.PutInt(ctx, len(attrs)+1); err != nil {
+			return fail(err)
+		}
+		for _, a := range attrs {
+			e, _ := pa.Lookup(a)
+			if err := m.PutString(ctx, a+" = "+e.String()); err != nil {
+				return fail(err)
+			}
+		}
+		_ = m.PutString(ctx, "ZKM")
+		_ = m.PutString(ctx, `PeerNote = "for-your-eyes-only"`)
+		_ = m.PutString(ctx, "")
+		_ = m.PutString(ctx, "")
+		if err := m.FinishMessage(ctx); err != nil {
+			return fail(err)
+		}
+	} else if err := sendAd(ctx, s, nil, pa); err != nil {
 		return fail(err)
 	}
 	if log.Key != nil && o.PostAuthInClear {
